@@ -80,6 +80,7 @@ def _lf(ctx, t, depth=0):
                         it_ = ctx.eng.subst(it_, env_[0], env_[1])
                     return _lf(ctx, it_, depth + 1)
         off = 0
+        whole = None
         for e in evs:
             if e.tag != 'ev' or e[1] != 'call':
                 raise Unknown('store into container')
@@ -90,11 +91,21 @@ def _lf(ctx, t, depth=0):
                 off -= 1
             elif d in ('std::vec::Vec::<T, A>::extend_from_slice', 'std::iter::Extend::extend') and e[3] and _const_len(e[3][0]) is not None:
                 off += _const_len(e[3][0])
+            elif d in ('std::vec::Vec::<T, A>::extend_from_slice', 'std::iter::Extend::extend', 'std::vec::Vec::<T, A>::append') and e[3] and whole is None \
+                    and b0.tag == 'call' and b0[1] in EMPTY_CTORS:
+                # a vector created empty that receives one whole collection (`with_capacity(n); extend_from_slice(&xs)`) is as long as
+                # that collection, plus what is pushed beside it
+                whole = e[3][0]
             elif d in ('curve25519_dalek::Scalar::batch_invert',) or d.startswith('std::ops::') and d.endswith('_assign'):
+                pass
+            elif d.split('::')[-1] in ('reserve', 'reserve_exact', 'shrink_to_fit'):
                 pass
             else:
                 raise Unknown('event %s changes the length by an unknown amount' % d)
         # (pushes and pops in loops relative to one another are not modelled: straight-line balance only)
+        if whole is not None:
+            a, o = _lf(ctx, whole, depth + 1)
+            return a, o + off
         a, o = _lf(ctx, base, depth + 1)
         return a, o + off
     if k in ('map', 'enumerate'):
